@@ -33,7 +33,7 @@ def _isinst_classes(repo, mod, test) -> List[str]:
     return out
 
 
-def run(repo: Repo, ctx) -> None:
+def _run_main(repo: Repo, ctx) -> None:
     ctx.explanation = (
         'Decides for the configuration machinery: R1 value coercion '
         '(validation) dominates every storage write in Operation.apply and '
@@ -577,3 +577,125 @@ def _arm(g: CFG, nid: int) -> str:
                 and g.edge_dominates(t.id, 'T', nid):
             best = norm(t.ast).split('.')[-1]
     return best
+
+
+def stale_reads(fn_node: ast.AST, var: str):
+    """(attribute, local) pairs where `local = var.attr` is evaluated before
+    a rebinding of `var` that can still be followed by a use of `local`."""
+    g = CFG(fn_node)
+    rebinds = [n.id for n in g.nodes if n.kind == 'stmt' and isinstance(
+        n.ast, ast.Assign) and any(norm(t) == var for t in n.ast.targets)]
+    out = []
+    for n in g.nodes:
+        if n.kind != 'stmt' or not isinstance(n.ast, ast.Assign):
+            continue
+        v = n.ast.value
+        if not (isinstance(v, ast.Attribute) and norm(v.value) == var
+                and isinstance(n.ast.targets[0], ast.Name)):
+            continue
+        local = n.ast.targets[0].id
+        after = g.reachable([n.id])
+        for r in rebinds:
+            if r not in after:
+                continue
+            later = g.reachable([r])
+            uses = [m for m in later if g.nodes[m].ast is not None and any(
+                isinstance(x, ast.Name) and x.id == local
+                and isinstance(x.ctx, ast.Load)
+                for e in g.node_exprs(g.nodes[m]) for x in ast.walk(e))]
+            if uses:
+                out.append((v.attr, local))
+    return out
+
+
+def _r8(repo: Repo, ctx) -> None:
+    from .. import shapes as SH
+    ctx.floor('C19.R8', 4)
+    OPS = 'edb.server.config.ops'
+    # (a) every object set that can be stored went through the size limit:
+    #     the test lives in the function both SET and INSERT share
+    cu = repo.func(f'{OPS}._check_object_set_uniqueness')
+    ctx.saw(cu)
+    g = CFG(cu.node)
+    lim = [t.id for t in g.nodes if t.kind == 'test'
+           and 'MAX_CONFIG_SET_SIZE' in norm(t.ast)]
+    rets = [n.id for n in g.nodes if n.kind == 'stmt'
+            and isinstance(n.ast, ast.Return)]
+    ok = bool(lim) and all(g.always_before(r, lim) for r in rets) and all(
+        any(isinstance(g.nodes[x].ast, ast.Raise)
+            for x in g.reachable([t], labels={'T', 'n'}, stop_at=rets)
+            if g.nodes[x].ast is not None) for t in lim)
+    users = sorted({f.qualname for f in repo._funcs_of(repo.module(OPS))
+                    for c in ast.walk(f.node) if isinstance(c, ast.Call)
+                    and call_name(c) == '_check_object_set_uniqueness'
+                    and f is not cu})
+    ctx.ob('C19.R8', '_check_object_set_uniqueness:size-limit', ok,
+           f'the set-size limit is not enforced inside '
+           f'_check_object_set_uniqueness, through which {users} build the '
+           f'value they store: an INSERT can grow a set past the limit that '
+           f'a SET of the same value would refuse, so the stored state '
+           f'cannot be re-applied', cu.loc,
+           sample=f'len(..) > MAX_CONFIG_SET_SIZE -> raise; users={users}')
+    ctx.ob('C19.R8', '_check_object_set_uniqueness:users', len(users) >= 2,
+           f'only {users} call the shared uniqueness / size check',
+           cu.loc, sample=users, nontrivial=False)
+    # (b) the field map validated against is the one of the resolved type
+    CT = 'edb.server.config.types'
+    fp = repo.func(f'{CT}.CompositeConfigType.from_pyvalue')
+    ctx.saw(fp)
+    st = stale_reads(fp.node, 'tspec')
+    ctx.ob('C19.R8', 'CompositeConfigType.from_pyvalue:tspec-after-_tname',
+           not st,
+           f'from_pyvalue reads tspec.{[a for a, _ in st]} before `_tname` '
+           f'rebinds tspec to the concrete subtype and uses the result '
+           f'afterwards: fields of the subtype are rejected as unknown '
+           f'(INSERT of a polymorphic config object, from_json of a '
+           f'persisted one)', fp.loc,
+           sample='tspec resolved from _tname before tspec.fields is read')
+    rb = [a for a in ast.walk(fp.node) if isinstance(a, ast.Assign)
+          and norm(a.targets[0]) == 'tspec' and 'get_type_by_name' in
+          norm(a.value)]
+    ctx.ob('C19.R8', 'CompositeConfigType.from_pyvalue:resolves-_tname',
+           len(rb) == 1, 'the concrete type named by _tname is not resolved',
+           fp.loc, sample='tspec = spec.get_type_by_name(tname)')
+    # (c) rendering a composite value to EdgeQL keeps every field that is
+    #     not secret / protected, whatever its value
+    ca = repo.func('edb.schema.utils.const_ast_from_python')
+    ctx.saw(ca)
+    arm = [a for names, a in SH.isinstance_arms(ca.node, ca.params()[0])
+           if 'CompositeType' in names]
+    if not arm:
+        raise AnalysisError('C19.R8: CompositeType arm of '
+                            'const_ast_from_python not found')
+    comps = [c for b in arm[0].body for c in ast.walk(b)
+             if isinstance(c, ast.ListComp)]
+    bad = []
+    for c in comps:
+        for gen_ in c.generators:
+            for cond in gen_.ifs:
+                for x in ast.walk(cond):
+                    if isinstance(x, ast.Call) and norm(x.func) == 'getattr':
+                        par = _parent_expr(cond, x)
+                        if not (isinstance(par, ast.Compare) and isinstance(
+                                par.ops[0], (ast.Is, ast.IsNot))):
+                            bad.append(norm(cond)[:50])
+    ctx.ob('C19.R8', 'const_ast_from_python:composite-fields-kept',
+           bool(comps) and not bad,
+           f'the CONFIGURE ... INSERT rendering of a config object drops '
+           f'fields by the truth of their value ({bad}): 0, false and the '
+           f'empty string are valid settings and would be replaced by the '
+           f'defaults when the statement is loaded back', ca.loc,
+           sample='filtered by secret / protected only')
+
+
+def _parent_expr(root: ast.AST, node: ast.AST):
+    for p in ast.walk(root):
+        for c in ast.iter_child_nodes(p):
+            if c is node:
+                return p
+    return root
+
+
+def run(repo: Repo, ctx) -> None:
+    _run_main(repo, ctx)
+    _r8(repo, ctx)
